@@ -4,6 +4,7 @@ package proj
 
 import (
 	"bytes"
+	"context"
 	"fmt"
 	"math/rand"
 	"os"
@@ -11,6 +12,7 @@ import (
 	"path/filepath"
 	"sort"
 	"strings"
+	"time"
 
 	"verifharness/internal/gen"
 )
@@ -55,6 +57,9 @@ type Opts struct {
 	NoLookAlikes bool // no packages whose path extends a tracking package path
 	PkgDirNotes  bool // always put the hand-written NOTES.md into internal/cov (a possible tracking package path)
 }
+
+// Entry is the name of the file that declares func main (main packages only).
+func (pk *Pkg) Entry() string { return pk.Files[0].Name }
 
 func pkgImportPath(dir string) string {
 	if dir == "." {
@@ -227,6 +232,11 @@ func Generate(r *rand.Rand, o Opts) *Project {
 			}
 			pk.Files = append(pk.Files, f)
 		}
+		// one two-file main package in four keeps func main in run.go next to a main.go that holds
+		// helpers only (the entry file is the file that declares func main, whatever its name)
+		if pk.IsMain && len(pk.Files) == 2 && r.Intn(4) == 0 {
+			pk.Files[0].Name, pk.Files[1].Name = "run.go", "main.go"
+		}
 		// one main package in three has an entry file without any change of its own (it is then
 		// rewritten only for the service-start block and the import)
 		if pk.IsMain && r.Intn(3) == 0 {
@@ -289,6 +299,25 @@ func Generate(r *rand.Rand, o Opts) *Project {
 				pk.Files[0].Imports = append(pk.Files[0].Imports, pkgImportPath(la[0]))
 				pk.Files[0].Calls = append(pk.Files[0].Calls, la[1]+".Look")
 			}
+			break
+		}
+	}
+	// a project package that a main package imports only from a file guarded by a custom build tag
+	// (`go build -tags extra`): still an import of that main package, its ids belong to the component
+	if r.Intn(3) == 0 {
+		for _, pk := range p.Pkgs {
+			if !pk.IsMain {
+				continue
+			}
+			src := func(k int) string {
+				return fmt.Sprintf("package only\n\n// Only is imported from a tag-guarded file only.\nfunc Only(a int) int {\n\ta += %d\n\treturn a\n}\n", k)
+			}
+			p.ExtraOld["tagged/only/only.go"] = src(1)
+			p.ExtraNew["tagged/only/only.go"] = src(2)
+			guard := "//go:build extra\n\npackage main\n\nimport _ \"" + pkgImportPath("tagged/only") + "\"\n"
+			p.ExtraOld[filepath.Join(pk.Dir, "z_extra.go")] = guard
+			p.ExtraNew[filepath.Join(pk.Dir, "z_extra.go")] = guard
+			pk.ExtraDirs = append(pk.ExtraDirs, "tagged/only")
 			break
 		}
 	}
@@ -411,6 +440,49 @@ func (p *Project) addShapes(r *rand.Rand) {
 		}
 		p.ExtraOld["pluginapi/api.go"] = api(1)
 		p.ExtraNew["pluginapi/api.go"] = api(2)
+	}
+	// several changed files without any tracking point that sort first in their package (constants
+	// only): with threads > 1 their workers must give their slots back like any other
+	if r.Intn(3) == 0 {
+		for k := 1; k <= 5; k++ {
+			c := func(v int) string {
+				return fmt.Sprintf("package l0\n\n// K%d is a tuning constant.\nconst K%d = %d\n", k, k, v)
+			}
+			p.ExtraOld[fmt.Sprintf("pkg/l0/aa_const%d.go", k)] = c(k)
+			p.ExtraNew[fmt.Sprintf("pkg/l0/aa_const%d.go", k)] = c(k + 10)
+		}
+	}
+	// a file excluded by a build constraint, with another package clause, that sorts first in a
+	// main package's directory (tool dependencies): the directory is still a main package
+	if r.Intn(3) == 0 {
+		for _, pk := range p.Pkgs {
+			if pk.IsMain && pk.Dir != "." {
+				deps := "//go:build tools\n\npackage tools\n\nimport _ \"fmt\"\n"
+				p.ExtraOld[filepath.Join(pk.Dir, "a_deps.go")] = deps
+				p.ExtraNew[filepath.Join(pk.Dir, "a_deps.go")] = deps
+				break
+			}
+		}
+	}
+	// two files with byte-identical new contents: one modified in a few lines, the other new in
+	// the revision (a copy); the new one is reported in full, whatever was computed for its twin
+	if r.Intn(3) == 0 {
+		twin := func(old bool) string {
+			var b strings.Builder
+			b.WriteString("package impl\n\n// Twin has a byte-identical copy in a sibling directory.\nfunc Twin(a int) int {\n")
+			for k := 1; k <= 12; k++ {
+				if old && k == 7 {
+					b.WriteString("\ta -= 7\n")
+					continue
+				}
+				fmt.Fprintf(&b, "\ta += %d\n", k)
+			}
+			b.WriteString("\treturn a\n}\n")
+			return b.String()
+		}
+		p.ExtraOld["twins/a/impl/impl.go"] = twin(true)
+		p.ExtraNew["twins/a/impl/impl.go"] = twin(false)
+		p.ExtraNew["twins/b/impl/impl.go"] = twin(false)
 	}
 	hello := func(k int) string {
 		return fmt.Sprintf("package hello\n\n// Hello is example code.\nfunc Hello(a int) int {\n\ta += %d\n\treturn a\n}\n", k)
@@ -732,7 +804,11 @@ type Run struct {
 
 // RunGoat runs the goat binary in dir.
 func RunGoat(goat, dir string, env []string, args ...string) Run {
-	cmd := exec.Command(goat, args...)
+	// a command that does not terminate is a failure of its own (exit -9): no goat command on these
+	// projects needs more than a few seconds
+	ctx, cancel := context.WithTimeout(context.Background(), 120*time.Second)
+	defer cancel()
+	cmd := exec.CommandContext(ctx, goat, args...)
 	cmd.Dir = dir
 	cmd.Env = append(os.Environ(), env...)
 	var so, se bytes.Buffer
@@ -740,6 +816,11 @@ func RunGoat(goat, dir string, env []string, args ...string) Run {
 	cmd.Stderr = &se
 	err := cmd.Run()
 	r := Run{Stdout: so.String(), Stderr: se.String()}
+	if ctx.Err() == context.DeadlineExceeded {
+		r.Exit = -9
+		r.Stderr += "\ngoat " + strings.Join(args, " ") + " did not terminate within 120 s (killed)"
+		return r
+	}
 	if err != nil {
 		if ee, ok := err.(*exec.ExitError); ok {
 			r.Exit = ee.ExitCode()
